@@ -52,7 +52,7 @@ pub fn valid_coords(seed: u64, thorough: bool) -> Vec<ReqCoord> {
     }
     coords.push(ReqCoord { name: "signal", alts });
     let mut alts: Vec<Box<dyn Fn(&mut Req) + Send + Sync>> = vec![Box::new(|_| {})];
-    for c in 1..4u8 {
+    for c in 1..6u8 {
         alts.push(Box::new(move |q: &mut Req| q.ctx = c));
     }
     coords.push(ReqCoord { name: "tree-context", alts });
@@ -83,6 +83,14 @@ impl C01 {
                 Ok(s) => s,
                 Err(e) => return Err(e),
             };
+            let mut s = s;
+            if r.ctx >= 4 {
+                // contexts 4 and 5: a first proof, a batch change of the tree, then the proof that is judged
+                if let PResult::Panic(pn) = prove_via(rln, r, &s, Entry::Tree, false) {
+                    return Err(format!("first proof panicked: {pn}"));
+                }
+                mutate_after_first_proof(rln, r, &mut s)?;
+            }
             let p = prove_via(rln, r, &s, entry, true);
             let v = match &p {
                 PResult::Ok(m) => verify_all(rln, m, &r.signal, &s.root),
@@ -147,7 +155,7 @@ impl Prop for C01 {
         for k in 0..(if q { 4 } else { 16 }) {
             let limit = 1 + rng.next_u64() % 65536;
             let slen = (rng.next_u64() % 300) as usize;
-            let r = Req { secret: rng.field(), index: rng.next_u64() % (1 << 20), limit: big(limit), id: big(rng.next_u64() % limit), ext: rng.field(), signal: rng.bytes(slen), ctx: (k % 4) as u8 };
+            let r = Req { secret: rng.field(), index: rng.next_u64() % (1 << 20), limit: big(limit), id: big(rng.next_u64() % limit), ext: rng.field(), signal: rng.bytes(slen), ctx: (k % 6) as u8 };
             vectors.push(("random".into(), r));
         }
         // the default vector must prove and verify, otherwise nothing else means anything
@@ -172,7 +180,7 @@ impl Prop for C01 {
         ev.set("deviation_bound", json!(if q { 1 } else { 2 }));
         ev.set("exhaustive", json!(true));
         ev.set("alphabets", json!(coords.iter().map(|c| json!({"coordinate": c.name, "size": c.alts.len()})).collect::<Vec<_>>()));
-        ev.set("rule", json!("every valid proving request within k deviations of the default over {secret F*, leaf index I* (both halves of the tree, first/last leaf), (limit,id) boundary pairs incl. (1,0), (65536,65535), external nullifier F*, signal (empty, 135/136/137 bytes, long), tree context (only this leaf, sibling set, 256-leaf batch first, neighbour set then deleted)} plus seeded random vectors; each vector is proved through the four entry points (tree state, caller-supplied witness, raw prove, externally computed witness vector from rln.wasm) and each message must have the reference public values and be accepted by verify_rln_proof, verify_with_roots([root]), verify_with_roots([]) and verify; distinct_nontrivial = vectors other than the default"));
+        ev.set("rule", json!("every valid proving request within k deviations of the default over {secret F*, leaf index I* (both halves of the tree, first/last leaf), (limit,id) boundary pairs incl. (1,0), (65536,65535), external nullifier F*, signal (empty, 135/136/137 bytes, long), tree context (only this leaf, sibling set, 256-leaf batch first, neighbour set then deleted, proved once then two other leaves removed in one batch then proved again, proved once then a range written then proved again)} plus seeded random vectors; each vector is proved through the four entry points (tree state, caller-supplied witness, raw prove, externally computed witness vector from rln.wasm) and each message must have the reference public values and be accepted by verify_rln_proof, verify_with_roots([root]), verify_with_roots([]) and verify; distinct_nontrivial = vectors other than the default"));
         for (c, r) in vectors.iter().step_by((vectors.len() / 4).max(1)).take(4) {
             ev.sample(json!({"deviation": c, "req": r.to_json()}));
         }
